@@ -58,6 +58,13 @@ Proof. vm_compute. reflexivity. Qed.
 Theorem C19_bool_flags_ok_finite : bool_flags_ok = true.
 Proof. vm_compute. reflexivity. Qed.
 
+(* the declared priorities of the two examples (lowest first): what the pinned source texts of the corpus are read with *)
+Theorem C19_declared_priorities_finite :
+  map (fun o => fst (fst (fst o))) ex_bool_ops = [[94]; [61]; [124]; [38]] /\
+  map (fun o => fst (fst o)) ex_float_ops = [[61]; [60]; [62]; [43]; [45]; [42]; [47]; [94]] /\
+  map fst ex_bool_unary = [[33]] /\ ex_float_unary = [[45]].
+Proof. vm_compute. repeat split. Qed.
+
 Theorem C19_bool : forall e r d args vals v (opt : bool),
   to_rt bool_cfg e = Some r -> snames_ok e = true -> length args = length vals ->
   denote bool_cfg (rho_of args vals) e = Some v ->
@@ -164,6 +171,7 @@ Print Assumptions C19_exec_sound.
 Print Assumptions C19_opt_sound.
 Print Assumptions C19_bool_table_ok_finite.
 Print Assumptions C19_bool_flags_ok_finite.
+Print Assumptions C19_declared_priorities_finite.
 Print Assumptions C19_bool.
 Print Assumptions C19_bool_any_flags.
 Print Assumptions C19_bool_ast.
